@@ -239,7 +239,9 @@ def collect(
         )
     )
     new._cache.derived_from = table._cache.derived_from | {new._ast}
-    new._cache.partition_by = [preprocess_arg(col, new) for col in table._cache.partition_by]
+    if table._cache.partition_by:
+        # re-establish the grouping state (names and UUIDs of the visible columns are preserved)
+        new = new >> group_by(*(table._cache.uuid_to_name[uid] for uid in table._cache.partition_by))
 
     return new
 
